@@ -28,6 +28,10 @@ pub enum OverOp {
     Push,
     Resize,
     SignExtend,
+    /// zeros / resize / read with a length near usize::MAX (must panic / panic / return Err)
+    ZerosHuge,
+    ResizeHuge,
+    ReadHuge,
     Append,
     Prepend,
     Insert,
@@ -35,10 +39,10 @@ pub enum OverOp {
     Collect,
 }
 
-pub const OVER_OPS: [OverOp; 18] = [
+pub const OVER_OPS: [OverOp; 21] = [
     OverOp::Zeros, OverOp::Ones, OverOp::Repeat, OverOp::FromBytes, OverOp::FromBinary, OverOp::FromHex, OverOp::Read, OverOp::TryFromNat,
     OverOp::TryFromSlice, OverOp::TryFromVec, OverOp::Push, OverOp::Resize, OverOp::SignExtend, OverOp::Append, OverOp::Prepend, OverOp::Insert,
-    OverOp::Extend, OverOp::Collect,
+    OverOp::Extend, OverOp::Collect, OverOp::ZerosHuge, OverOp::ResizeHuge, OverOp::ReadHuge,
 ];
 
 #[derive(Clone, Copy, Debug, Hash, PartialEq, Eq, Serialize, Deserialize)]
@@ -63,6 +67,8 @@ pub struct C19;
 
 /// Outcome of a probe: how the call ended.
 enum Ended {
+    /// panicked, but the vector it was operating on was left with len > capacity: (len, capacity)
+    PanickedOverlong(usize, usize),
     Panicked,
     Errored,
     /// returned normally: (len, capacity) of what came back
@@ -80,7 +86,40 @@ fn probe<T: Subject>(below: usize, d: usize, op: OverOp, fill: bool, other: Tid,
     let b = bit(fill);
     let val = |n: usize| realize_val(&ValPat::Alt(fill), n, 8);
     let lc = |v: &T| Ended::Returned(v.len(), BitVector::capacity(v));
+    // in-place growth of a surviving vector: its state is inspected even if the call panics
+    if matches!(op, OverOp::Push | OverOp::Resize | OverOp::SignExtend | OverOp::Extend | OverOp::ResizeHuge) {
+        if op == OverOp::Push && below != 0 {
+            return Ended::Skip;
+        }
+        let huge = [usize::MAX, usize::MAX - 6, usize::MAX - 7, usize::MAX / 2 + 1, 1usize << 40][d % 5];
+        let mut v: T = build_canon(&val(if op == OverOp::Push { c } else { start }));
+        let r = catch(std::panic::AssertUnwindSafe(|| match op {
+            OverOp::Push => v.push(b),
+            OverOp::Resize => v.resize(target, b),
+            OverOp::ResizeHuge => v.resize(huge, b),
+            OverOp::SignExtend => v.sign_extend(target),
+            _ => {
+                let z: Z = tid_match!(T::TID, U => { let mut u = U::from_z(v.clone().wrap()).unwrap(); let r = catch(std::panic::AssertUnwindSafe(|| u.extend((0..grow).map(|_| b)))); if r.is_err() { std::panic::resume_unwind(Box::new((u.len(), BitVector::capacity(&u)))) } u.wrap() });
+                v = T::from_z(z).unwrap();
+            }
+        }));
+        return match r {
+            Ok(()) => lc(&v),
+            Err(_) if v.len() > BitVector::capacity(&v) => Ended::PanickedOverlong(v.len(), BitVector::capacity(&v)),
+            Err(_) => Ended::Panicked,
+        };
+    }
     let r: Result<Ended, String> = catch(|| match op {
+        OverOp::ZerosHuge => lc(&T::zeros([usize::MAX, usize::MAX - 6, usize::MAX / 2 + 1, 1usize << 40][d % 4])),
+        OverOp::ReadHuge => {
+            let bytes = vec![0xffu8; 64];
+            let mut rd: &[u8] = &bytes;
+            match T::read(&mut rd, [usize::MAX, usize::MAX - 6, usize::MAX - 7, usize::MAX - 8, usize::MAX / 2 + 1, 1usize << 40][d % 6], if at % 2 == 0 { Endianness::Little } else { Endianness::Big }) {
+                Ok(v) => lc(&v),
+                Err(_) => Ended::Errored,
+            }
+        }
+        OverOp::ResizeHuge => unreachable!(),
         OverOp::Zeros => lc(&T::zeros(target)),
         OverOp::Ones => lc(&T::ones(target)),
         OverOp::Repeat => lc(&T::repeat(b, target)),
@@ -195,13 +234,13 @@ impl Property for C19 {
         "C19"
     }
     fn rule(&self) -> String {
-        "Cases: for each of the 18 fixed types, a valid vector of length C-below (below in 0..=3) or an empty one and one request exceeding the capacity by d in 1..70 bits: zeros/ones/repeat(C+d) must panic; from_bytes/from_binary/from_hex/read/TryFrom<integer | slice | vector of every other type> must return Err; push, resize, sign_extend, append/prepend/insert (operand of any zoo type), extend and collect must panic. Returning normally is the violation (reported with the resulting len/capacity). Both build profiles run every case. In the profile with debug assertions only: get/set(i>=len), copy_range with start or end > len and split_off(i>len) must panic, on all 20 types. Enumerated: the complete product (type x below x d x operation x fill bit) with the operand type rotating; random adds operand types/positions. Non-trivial: every over-capacity request from a valid state is; distinct by hash of the case (type, operation, start length, d, operand type).".into()
+        "Cases: for each of the 18 fixed types, a valid vector of length C-below (below in 0..=3) or an empty one and one request exceeding the capacity by d in 1..70 bits: zeros/ones/repeat(C+d) must panic; from_bytes/from_binary/from_hex/read/TryFrom<integer | slice | vector of every other type> must return Err; push, resize, sign_extend, append/prepend/insert (operand of any zoo type), extend and collect must panic. Returning normally is the violation (reported with the resulting len/capacity); so is a panic that leaves the vector it was applied to with len > capacity (the vector is inspected after the caught panic). zeros/resize/read with lengths near usize::MAX are included. Both build profiles run every case. In the profile with debug assertions only: get/set(i>=len), copy_range with start or end > len and split_off(i>len) must panic, on all 20 types. Enumerated: the complete product (type x below x d x operation x fill bit) with the operand type rotating; random adds operand types/positions. Non-trivial: every over-capacity request from a valid state is; distinct by hash of the case (type, operation, start length, d, operand type).".into()
     }
     fn random_cases(&self, tier: Tier) -> u64 {
         tier.pick(150000, 4800000)
     }
     fn strategy(&self, tier: Tier) -> BoxedStrategy<C19Case> {
-        let over = ((0usize..18).prop_map(|i| FIXED_TIDS[i]), 0usize..5, 1usize..70, 0usize..18, any::<bool>(), 0..NT, any::<u16>()).prop_map(|(ty, below, d, o, fill, other, at)| C19Case::Over { ty, below, d, op: OVER_OPS[o], fill, other, at });
+        let over = ((0usize..18).prop_map(|i| FIXED_TIDS[i]), 0usize..5, 1usize..70, 0usize..21, any::<bool>(), 0..NT, any::<u16>()).prop_map(|(ty, below, d, o, fill, other, at)| C19Case::Over { ty, below, d, op: OVER_OPS[o], fill, other, at });
         let bad = (arb_operand(tier), 0usize..5, prop_oneof![Just(0usize), Just(1), 0usize..200]).prop_map(|(a, w, beyond)| C19Case::BadIndex { a, which: [BadIdx::Get, BadIdx::Set, BadIdx::CopyRangeEnd, BadIdx::CopyRangeStart, BadIdx::SplitOff][w], beyond });
         prop_oneof![5 => over, 1 => bad].boxed()
     }
@@ -251,7 +290,7 @@ impl Property for C19 {
                 let what = format!("over-capacity:{:?}", op);
                 let ended = tid_match!(*ty, T => probe::<T>(*below, *d, *op, *fill, *other, *at));
                 let c = fixed_cap(*ty).unwrap();
-                let must_err = matches!(op, OverOp::FromBytes | OverOp::FromBinary | OverOp::FromHex | OverOp::Read | OverOp::TryFromNat | OverOp::TryFromSlice | OverOp::TryFromVec);
+                let must_err = matches!(op, OverOp::FromBytes | OverOp::FromBinary | OverOp::FromHex | OverOp::Read | OverOp::ReadHuge | OverOp::TryFromNat | OverOp::TryFromSlice | OverOp::TryFromVec);
                 match ended {
                     Ended::Skip => {
                         st.class("not applicable (operand type too small / value too wide)");
@@ -259,6 +298,7 @@ impl Property for C19 {
                         return Ok(());
                     }
                     Ended::Returned(l, cap) => fail!(format!("{}/returned", what), "{}: {:?} requesting {} bits (capacity {}, start length {}) returned normally with len()={} capacity()={}", NAMES[*ty as usize], op, c + d, c, if *below >= 4 { 0 } else { c - below.min(&c) }, l, cap),
+                    Ended::PanickedOverlong(l, cap) => fail!(format!("{}/overlong-after-panic", what), "{}: {:?} beyond capacity panicked, but left the vector it was applied to with len()={} > capacity()={}", NAMES[*ty as usize], op, l, cap),
                     Ended::Panicked => ensure!(!must_err, format!("{}/panicked-instead-of-err", what), "{}: {:?} beyond capacity panicked although it must return an error", NAMES[*ty as usize], op),
                     Ended::Errored => ensure!(must_err, "harness", "growth operation returned an error value?"),
                 }
